@@ -169,8 +169,15 @@ def direct_pairs():
                     out.append(('%s %s %s, %d' % (mn, kw[w], mi_, v), '%s%s $%d, %s' % (mn, sfx, v, ma), mn, 'direct:m%d,i' % w, v))
     for v in asmgen.IMM_BOUNDARY:
         out.append(('push %d' % v, 'pushl $%d' % v, 'push', 'direct:i', v))
+        out.append(('push WORD PTR %d' % v, 'pushw $%d' % v, 'push', 'direct:i16', v))
         out.append(('imul ecx, ebx, %d' % v, 'imull $%d, %%ebx, %%ecx' % v, 'imul', 'direct:r32,r32,i', v))
         out.append(('imul cx, WORD PTR [ebx+8], %d' % v, 'imulw $%d, 8(%%ebx), %%cx' % v, 'imul', 'direct:r16,m16,i', v))
+    for mn in ('push', 'pop', 'inc', 'dec', 'neg', 'not', 'mul', 'div'):
+        for w, sfx in ((16, 'w'), (32, 'l')) if mn in ('push', 'pop') else ((8, 'b'), (16, 'w'), (32, 'l')):
+            for ri, ra in regs[w]:
+                out.append(('%s %s' % (mn, ri), '%s%s %s' % (mn, sfx, ra), mn, 'direct:r%d' % w, None))
+            for mi_, ma in mems:
+                out.append(('%s %s %s' % (mn, kw[w], mi_), '%s%s %s' % (mn, sfx, ma), mn, 'direct:m%d' % w, None))
     return out
 
 
@@ -201,7 +208,7 @@ def run_direct(sh, pairs):
             continue
         sh.case(('direct', li, la), True, cls='intel-att-direct/%s' % shape)
         wit = {'rewrite': 'intel-att', 'line': li, 'variant': la}
-        icls = asmgen.imm_class(v, int(re.search(r'(\d+),i$', shape).group(1)) if re.search(r'(\d+),i$', shape) else 32)
+        icls = asmgen.imm_class(v, int(re.search(r'(\d+),i$', shape).group(1)) if re.search(r'(\d+),i$', shape) else (16 if shape.endswith('i16') else 32))
         # keyed without the mnemonic: the differences observed on the unchanged tree come from the typing of immediates in the
         # two front ends (plain int vs fixed-width), whatever the mnemonic
         key = 'intel-att-direct/%s/%s' % (shape, icls)
